@@ -6,41 +6,17 @@ fn main() {
     let mut spec = WorldSpec::default();
     let mut b1 = BankSpec::default();
     b1.oracle = OracleSpec::pyth(10_000_000, -6, 0);
-    let mut b2 = BankSpec::default();
-    b2.oracle = OracleSpec::pyth(1_000_000, -6, 0);
-    spec.banks = vec![b1, b2];
-    spec.n_users = 3;
+    spec.banks = vec![b1];
+    spec.n_users = 2;
     let mut w = World::build(&spec).unwrap();
-    let (u0, u1, u2) = (w.users[0].clone(), w.users[1].clone(), w.users[2].clone());
-    out(&format!("lender dep: {:?}", w.vm.exec(&w.ix_deposit(u0.accts[0], u0.auth, 1, u0.tokens[1], 1_000_000_000_000, None))));
-    out(&format!("u1 dep: {:?}", w.vm.exec(&w.ix_deposit(u1.accts[0], u1.auth, 0, u1.tokens[0], 100_000_000, None))));
-    out(&format!("u1 bor: {:?}", w.vm.exec(&w.ix_borrow(u1.accts[0], u1.auth, 1, u1.tokens[1], 300_000_000))));
-    let _ = w.set_price(0, 3_000_000, 0, 3_000_000, 0);
-    // self-liquidation: liquidator == liquidatee
-    let ix = w.ix_liquidate(u1.accts[0], u1.auth, u1.accts[0], 0, 1, 1_000_000);
-    let mut vm = w.vm.clone();
-    out(&format!("self-liquidation: {:?} panic={:?}", vm.exec(&ix), mfv::svm::last_panic()));
-    // liquidation by u2 normal
-    out(&format!("u2 dep: {:?}", w.vm.exec(&w.ix_deposit(u2.accts[0], u2.auth, 1, u2.tokens[1], 1_000_000_000, None))));
-    let ix = w.ix_liquidate(u2.accts[0], u2.auth, u1.accts[0], 0, 1, 1_000_000);
-    let mut vm = w.vm.clone();
-    out(&format!("normal liquidation: {:?}", vm.exec(&ix)));
-    // withdraw with destination = the bank's own liquidity vault
-    let ix = w.ix_withdraw(u0.accts[0], u0.auth, 1, w.banks[1].lv, 1000, None);
-    let mut vm = w.vm.clone();
-    out(&format!("withdraw into the liquidity vault: {:?}", vm.exec(&ix)));
-    // borrow with destination = insurance vault
-    let ix = w.ix_borrow(u1.accts[0], u1.auth, 1, w.banks[1].iv, 1000);
-    let mut vm = w.vm.clone();
-    out(&format!("borrow into the insurance vault: {:?}", vm.exec(&ix)));
-    // transfer account to itself
-    let mut ix = w.ix_transfer_account(u0.accts[0], u0.accts[0], u0.auth, u0.auth);
-    for m in ix.accounts.iter_mut() { if m.pubkey == u0.accts[0] { m.is_signer = true; } }
-    let mut vm = w.vm.clone();
-    out(&format!("transfer account to itself: {:?} panic={:?}", vm.exec(&ix), mfv::svm::last_panic()));
-    // transfer to an EXISTING other account (u2's)
-    let mut ix = w.ix_transfer_account(u0.accts[0], u2.accts[0], u0.auth, u0.auth);
-    for m in ix.accounts.iter_mut() { if m.pubkey == u2.accts[0] { m.is_signer = true; } }
-    let mut vm = w.vm.clone();
-    out(&format!("transfer into an existing account: {:?}", vm.exec(&ix)));
+    let u0 = w.users[0].clone();
+    let (_mint, funding) = w.ensure_emissions_fixtures();
+    out(&format!("setup emissions: {:?}", w.vm.exec(&w.ix_setup_emissions(0, funding, 2, 1_000_000, 1_000_000_000_000))));
+    out(&format!("dep: {:?}", w.vm.exec(&w.ix_deposit(u0.accts[0], u0.auth, 0, u0.tokens[0], 1_000_000_000, None))));
+    w.vm.advance(100_000);
+    w.refresh_oracles();
+    let r = w.vm.exec(&w.ix_withdraw(u0.accts[0], u0.auth, 0, u0.tokens[0], 0, Some(true)));
+    out(&format!("withdraw_all with emissions outstanding: {:?}", r));
+    let a = w.macct(&u0.accts[0]);
+    out(&format!("balance active={} shares={:?} em_out={:?}", a.lending_account.balances[0].active, fixed::types::I80F48::from(a.lending_account.balances[0].asset_shares), fixed::types::I80F48::from(a.lending_account.balances[0].emissions_outstanding)));
 }
